@@ -4,7 +4,7 @@ from analysis.cfg import Cfg
 from analysis.flow import (DefUse, backward, find_calls, callee_is, callee_ends, op_local, op_const, switch_info,
                            bool_branch, variant_arms, static_of, field_chain)
 from analysis.linear import Linear
-from analysis.atomics import is_atomic_method, receiver_key
+from analysis.atomics import is_atomic_method, receiver_key, role_field
 from analysis.table import describe_val, PathWalker
 from rules.common import need, inl, family, uncovered_roots, unit, closure_with
 
@@ -506,7 +506,7 @@ def running_rule(run, f, rid_inc, rid_dec, rid_rmw):
     run.rule(rid_inc, "running is incremented exactly once per created worker, after the max-size refusal", floor=1, template="T2")
     run.rule(rid_dec, "running is decremented exactly once on Complete/Error/Cancelled, never otherwise; Suspend/Syscall grow the pool", floor=7, template="T6 (exhaustive over CoroutineState)")
     run.rule(rid_rmw, "every change of running is an atomic read-modify-write", floor=2, template="T4")
-    key = (POOL, "running")
+    key = (POOL, role_field(f, POOL, POOL + "::get_running_size", "running"))     # the counter get_running_size() reports
     writers = {}
     for body in f.bodies:
         if body.kind == "Promoted":
@@ -759,12 +759,18 @@ def pool_state_rule(run, f, rid):
         raw = [(x, t) for (x, t) in find_calls(b, callee_is(OLQ + "::push")) if (field_chain(b, du, t["args"][0]) or [""])[-1] == "task_queue"]
         ok = False
         if st and raw:
-            va = variant_arms(b, cfg, du, st[0][1]["dest"]["l"], cfg.after(st[0][0]))
-            if va:
-                arms = va[0]
-                run_arm = arms.get("Running")
-                others = {bb for n, bb in arms.items() if n != "Running"}
-                ok = run_arm is not None and cfg.dominates(run_arm, raw[0][0]) and not any(raw[0][0] in cfg.reachable({o}) for o in others if o != run_arm)
+            # path by path: on every path that reaches the queue push, the tests of state() left only Running possible --
+            # a `match`, `matches!(.., Running)`, `== Running`, or `!= Running { return Err }` alike
+            from analysis.table import enum_facts
+            w_ = PathWalker(b)
+            reach = [(p_, c_) for (p_, c_, sv) in w_.walk(0, lambda bid, t: ("push",) if bid == raw[0][0] else None) if sv[0] == "push"]
+            n_ex = 0
+            ok = True
+            for (p_, c_) in reach:
+                n_ex += 1
+                if st[0][0] not in p_ or enum_facts(c_, ("Running", "Stopping", "Stopped")) != {"Running"}:
+                    ok = False
+            ok = run.paths(rid, "submit_task/reject", b.loc(), n_ex) and ok
         if ok:
             run.ok(rid, "submit_task/reject", "submit_raw_task only on the Running arm")
         else:
